@@ -128,13 +128,21 @@ func concretise(doc []AEv, s *sampler, o concOpts) []AEv {
 				ne.AT, ne.Count, ne.Bytes = s.arraySample()
 				ne.DT = ne.AT
 			case "media":
-				ne.MT = []string{"a/b", "application/x-sh", "x"}[s.pick("mt", 3)]
+				ne.MT = []string{"a/b", "application/x-sh", "X-y.z+w/v1"}[s.pick("mt", 3)]
 				ne.Bytes = s.strBytes("mediadata", 1)
 				ne.Count = len(ne.Bytes)
 			case "cbin":
 				ne.CT = []uint64{0, 1, 127, 128, 300, 70000}[s.pick("ct", 6)]
 				ne.Bytes = s.strBytes("cbindata", 1)
 				ne.Count = len(ne.Bytes)
+			case "ctxt":
+				ne.CT = []uint64{0, 1, 127, 128, 300, 70000}[s.pick("ct", 6)]
+				ne.Bytes = s.strBytes("str", 1)
+				ne.Count = len(ne.Bytes)
+			case "cmt":
+				ne.Bytes = bytesToInts([]byte(commentSingle[s.pick("cmt", len(commentSingle))]))
+			case "cmtm":
+				ne.Bytes = bytesToInts([]byte(commentMulti[s.pick("cmtm", len(commentMulti))]))
 			default:
 				panic("harness: unknown placeholder class " + class)
 			}
@@ -154,7 +162,7 @@ func concretise(doc []AEv, s *sampler, o concOpts) []AEv {
 
 // expandChunks may turn a whole-array event into begin + chunk + data events.
 func expandChunks(e AEv, s *sampler, o concOpts) []AEv {
-	isArr := e.M == "OnArray" || e.M == "OnStringlikeArray" || e.M == "OnMedia" || e.M == "OnCustomBinary"
+	isArr := e.M == "OnArray" || e.M == "OnStringlikeArray" || e.M == "OnMedia" || e.M == "OnCustomBinary" || e.M == "OnCustomText"
 	if !isArr || !o.Chunk || s.rnd.Intn(2) == 0 {
 		return []AEv{e}
 	}
@@ -164,7 +172,7 @@ func expandChunks(e AEv, s *sampler, o concOpts) []AEv {
 	switch e.M {
 	case "OnMedia":
 		b.M, b.MT = "OnMediaBegin", e.MT
-	case "OnCustomBinary":
+	case "OnCustomBinary", "OnCustomText":
 		b.M, b.CT = "OnCustomBegin", e.CT
 	}
 	out = append(out, b)
@@ -223,5 +231,10 @@ func expandChunks(e AEv, s *sampler, o concOpts) []AEv {
 	}
 	return out
 }
+
+// comment texts the text format can express: single-line comments hold no line break;
+// multi-line comments nest with balanced delimiters
+var commentSingle = []string{" a comment", "", "x", " é€😀 ", " // nested // ", " /* not a block */", "\ttab", " trailing ", " \"quoted\" \\n "}
+var commentMulti = []string{" a comment ", "", "x", " line1\nline2 ", " /* nested */ ", " é€😀 ", " //x ", "\n    indented\n", " * star * ", " \"q\" "}
 
 func utf8Text(at string) bool { return at == "string" || at == "rid" || at == "rref" || at == "ctxt" }
